@@ -380,6 +380,9 @@ def gen_source(prog):
                 for act in c[hook]:
                     if act[0] == "set":
                         L.append("        %s = %d" % (_py_path("self", act[1], None), act[2]))
+                    elif act[0] == "append":
+                        # grow a list from the hook: a new object of the element class, or a scalar value
+                        L.append("        %s.append(%s)" % (_py_path("self", act[1], None), ("%s()" % act[2]) if isinstance(act[2], str) else ("%d" % act[2])))
                     elif act[0] == "raise":
                         L.append("        raise UserFault(%r)" % hook)
                     elif act[0] == "raise_if":
